@@ -32,11 +32,15 @@ def run(tier, seed):
     # 3. shoot(): the event is reset before anything is generated
     rep.rule('SHOOT.reset-first', 'in shoot() `event_.reset()` dominates every generator call and every operation call')
     sh = prog.fn(GEN + '::shoot')
-    F = cppflow.Flow(sh)
+    try:
+        F = cppflow.Flow(sh, helpers=cppflow.private_helpers(prog, sh))     # engine calls folded into a private helper are expanded
+    except AnalysisBroken:
+        F = cppflow.Flow(sh)
     rs = [x for x in F.nodes(kind='call') if x.stmt[1] == 'event::reset']
     gens = [x for x in F.nodes(kind='call') if x.stmt[1] in ('genbbsub', 'dbd_gA::shoot') or x.stmt[1].startswith('indirect')
             or x.stmt[1].endswith('operator()')]
-    ok = bool(rs) and len(gens) >= 3 and all(F.dominates(rs[0], g) for g in gens)
+    engines = [g for g in gens if g.stmt[1] in ('genbbsub', 'dbd_gA::shoot')]
+    ok = bool(rs) and len(engines) >= 1 and len(gens) > len(engines) and all(F.dominates(rs[0], g) for g in gens)
     rep.add('SHOOT.reset-first', 'shoot', where(sh, rs[0].line if rs else sh['l']),
             'event_.reset() precedes the %d generator/operation calls of shoot()' % len(gens), ok)
     ev = typestate.reset_complete(rep, prog, 'bxdecay0::event', 'bxdecay0::event::reset', 'RESET.complete')
